@@ -399,6 +399,15 @@ Proof.
   apply existsb_exists. exists q. split; [apply in_or_app; left; exact H1 | exact H2].
 Qed.
 
+(* SetBlocked replaces everything that was registered: afterwards only the new predicate is asked, and the exclusions are
+   gone unless it provides them (witness: with a predicate that never blocks two hooks of one snap get goroutines) *)
+Theorem set_blocked_only : forall p t running, blocked_by (set_blocked p) t running = p t running.
+Proof. intros. unfold blocked_by, set_blocked. cbn. apply orb_false_r. Qed.
+
+(* a restart leaves no goroutine, whatever happened before; the invariant then starts afresh *)
+Theorem restart_no_goroutines : forall evs, run (evs ++ [ERestart]) = [].
+Proof. intro evs. unfold run. rewrite fold_left_app. reflexivity. Qed.
+
 (* ------------------------------------------------------------------------------------------ someBlocked *)
 
 Lemma ensure_loop_tomb_mono : forall cs tb running id,
